@@ -223,6 +223,42 @@ def c06_eq(r, seed, tier, model_ok):
         if xy in ("V True", "V False") and (look == "V 7") != (xy == "V True"): bad2.append(dict(program=progs[5 * i + 4], impl=f"ㄴ says {xy}, lookup gives {look}", model="a key finds an entry iff it equals the stored key", which=["lookup-iff-equal"]))
     r.slice("equality_laws", len(progs), len(set(progs)), [progs[0]], dict(triples=len(trip)), "implementation-only oracle over random value triples: symmetry, transitivity, lookup hit <=> ㄴ", bad2[:40])
 
+def c11_numerals(r, seed, tier, model_ok):
+    """numerals as TEXT in every base 2..36 read by ㅈㅅ (integers: sign, the 0x / 0o / 0b prefixes of bases 16 / 8 / 2, either case) and by ㅅㅅ
+    (integer.fraction digits of that base: the exact rational n / base^k rounded ONCE to the nearest double) - short and LONG numerals
+    (fractions of up to 800 digits, values beyond 2^53 and beyond the largest double), trailing zeros, malformed texts, refused bases:
+    expected values computed here with exact rationals, and the same programs against the model (Builtins.parse_int / float_in_base)"""
+    from slices_world import st as strlit
+    R = random.Random(seed * 7919 + 0xC11 + 5); DIG = "0123456789abcdefghijklmnopqrstuvwxyz"; cases = []; want = []; kinds = collections.Counter()
+    def digits(b, n): return "".join(R.choice(DIG[:b]) for _ in range(n))
+    for _ in range(N(tier, 700, 12000)):
+        b = R.choice([2, 3, 5, 6, 7, 8, 10, 12, 16, 16, 20, 36, 36, R.randrange(2, 37)]); k = R.random()
+        ip = digits(b, R.choice([0, 1, 1, 2, 3, 8, 20, 60] + ([900] if R.random() < .03 else []))); sign = R.choice(["", "", "-", "+"])
+        fp = digits(b, R.choice([0, 1, 2, 3, 11, 19, 21, 35, 40, 70] + ([300, 700] if R.random() < .08 else [])))
+        if R.random() < .3: fp = (fp.rstrip("0") or "1") + "0" * R.choice([1, 5, 33, 60])          # trailing zeros change nothing
+        if R.random() < .25: ip = ip.upper(); fp = fp.upper()
+        if k < .35 and ip:          # an integer
+            pre = R.choice(["", "", {16: "0x", 8: "0o", 2: "0b"}.get(b, ""), {16: "0X", 8: "0O", 2: "0B"}.get(b, "")])
+            t_ = R.choice(["", " ", "\t"]) + sign + pre + ip + R.choice(["", " ", "\n"])
+            cases.append(dict(text=f"{strlit(t_)} {E(b)} ㅈㅅㅎㄷ", trace=False)); want.append(f"V {int(sign + ip, b)}"); kinds["integer"] += 1
+        elif k < .85 and (ip or fp):
+            t_ = R.choice(["", "  "]) + sign + ip + R.choice([".", "."] if fp else ["", "."]) + fp + R.choice(["", " "])
+            n_ = int(sign + (ip + fp), b); d_ = b ** len(fp)
+            try: w_ = "V " + repr(float(Fraction(n_, d_)) if n_ else 0.0)
+            except OverflowError: w_ = "E 5,-39"
+            if b == 10: w_ = None          # base ten goes through float(): compared with the model only
+            cases.append(dict(text=f"{strlit(t_)} {E(b)} ㅅㅅㅎㄷ", trace=False)); want.append(w_); kinds["real"] += 1
+        else:          # malformed or refused
+            t_ = R.choice(["", ".", "-", "1.2.3", "1 .5", "1._5", ip + "." + fp + "z", "0x", "0x.8", "z" + ip, ip + " " + fp, "--1", "1e3"])
+            bb = R.choice([b, b, 1, 37, -2, 40]); fn = R.choice(["ㅈㅅ", "ㅅㅅ"])
+            cases.append(dict(text=f"{strlit(t_)} {E(bb)} {fn}ㅎㄷ", trace=False)); want.append(None); kinds["malformed-or-refused"] += 1
+    a = impl_run(cases)
+    bad = [dict(program=c["text"][:300], impl=res(o).split(" @")[0][:100], model="exact: " + w, which=["numeral"]) for c, o, w in zip(cases, a, want) if w is not None and res(o).split(" @")[0] != w]
+    r.slice("numerals_exact", len(cases), len({c["text"] for c in cases}), [cases[0]["text"][:200]], dict(kinds), "numerals of bases 2..36 (long fractions, prefixes, trailing zeros) read by ㅈㅅ / ㅅㅅ vs exact rational arithmetic rounded once", bad[:40])
+    if model_ok:
+        b_ = model_run(cases, tlimit=20); dist, bad2 = compare(cases, a, b_, fields=("res",))
+        r.slice("numerals_vs_model", len(cases), len({c["text"] for c in cases}), [cases[1]["text"][:200]], dict(outcomes=dict(dist)), "the same programs, malformed texts and refused bases included, vs Builtins.parse_int / float_in_base", bad2)
+
 # ------------------------------------------------------------------ C11: numeric tower, doubles compared bit for bit
 def c11_tower(r, seed, tier, model_ok):
     R = random.Random(seed * 7919 + 0xC11 + 1); n = N(tier, 4000, 100000)
